@@ -1,8 +1,8 @@
 package sim
 
 import (
-	"compress/gzip"
 	"bytes"
+	"compress/gzip"
 	"context"
 	"errors"
 	"fmt"
